@@ -90,6 +90,7 @@ var clauseKeywords = map[string]bool{
 	"props": true, "theory": true, "requires": true, "ensures": true, "exit": true, "modifies": true,
 	"ghost": true, "loop": true, "at": true, "implements": true, "allow": true, "fresh": true,
 	"assume": true, "prove": true, "note": true, "var": true, "frozen": true,
+	"call": true, "induct": true, "apply": true,
 }
 
 var blockRe = regexp.MustCompile(`(?s)/\*@(.*?)@\*/`)
@@ -330,6 +331,33 @@ func (b *block) addClause(kw, text string, line int) error {
 			return err
 		}
 		b.clauses = append(b.clauses, c)
+	case "call":
+		// call r := <function> arg...   (lemma blocks: a call satisfying the callee's preconditions; its postconditions are assumed)
+		i := strings.Index(text, ":=")
+		if i < 0 {
+			return fmt.Errorf("call needs ':='")
+		}
+		name := strings.TrimSpace(text[:i])
+		if smtReserved[name] || name == "" {
+			return fmt.Errorf("call result name %q", name)
+		}
+		if len(strings.Fields(text[i+2:])) == 0 {
+			return fmt.Errorf("call needs a function name")
+		}
+		b.clauses = append(b.clauses, &clause{kind: "call", gname: name, src: strings.TrimSpace(text[i+2:]), line: line})
+	case "induct":
+		b.clauses = append(b.clauses, &clause{kind: "induct", gname: strings.TrimSpace(text), line: line})
+	case "apply":
+		// apply <lemma> (x term) (y term) ...
+		fs := strings.Fields(text)
+		if len(fs) == 0 {
+			return fmt.Errorf("apply needs a lemma name")
+		}
+		f, err := parseSx("(" + strings.TrimSpace(strings.TrimPrefix(strings.TrimSpace(text), fs[0])) + ")")
+		if err != nil {
+			return err
+		}
+		b.clauses = append(b.clauses, &clause{kind: "apply", gname: fs[0], f: f, src: text, line: line})
 	case "var":
 		j := strings.Index(text, ":")
 		if j < 0 {
